@@ -407,12 +407,12 @@ func TestVerif_C03_Backend(t *testing.T) {
 		for i, d := range keys {
 			x, y, _ := c03ToAffine(c03Mul(d, c03G()))
 			kps[i] = kp{d: d, x: x, y: y}
+			prv, err := ToECDSA(c03Pad32(d)) // outside the case: later cases (and replays of them) need the key
+			kps[i].prv = prv
 			r.Case(c03Case{Op: "ToECDSA", Key: hex.EncodeToString(c03Pad32(d))}, func() error {
-				prv, err := ToECDSA(c03Pad32(d))
 				if err != nil {
 					return fmt.Errorf("ToECDSA(%x): %v", d, err)
 				}
-				kps[i].prv = prv
 				if prv.X.Cmp(x) != 0 || prv.Y.Cmp(y) != 0 {
 					return fmt.Errorf("public key of %x = (%x,%x), reference (%x,%x)", d, prv.X, prv.Y, x, y)
 				}
